@@ -35,6 +35,9 @@ def shards(tier: str, seed: int) -> List[Dict[str, Any]]:
     return out
 
 
+INF_LEAVES = [0]
+
+
 def rand_leaf(rng, shape_prefix=()):
     rank = int(rng.integers(0, 4))
     shape = tuple(shape_prefix) + tuple(int(rng.integers(1, 4)) for _ in range(rank))
@@ -63,7 +66,12 @@ def build(rng, struct, prefix=()):
             return rng.integers(0, 2, size=shape).astype(bool)
         if np.issubdtype(dt, np.integer):
             return rng.integers(0, 100, size=shape).astype(dt)
-        return rng.uniform(-5, 5, size=shape).astype(dt)
+        a = rng.uniform(-5, 5, size=shape).astype(dt)
+        if a.size and rng.random() < 0.2:
+            # an infinite entry (a padding / sentinel value): arithmetic shortcuts (0 * inf) must not leak it into other entries
+            a.reshape(-1)[int(rng.integers(a.size))] = np.inf if rng.random() < 0.5 else -np.inf
+            INF_LEAVES[0] += 1
+        return a
     kids = [build(rng, s, prefix) for s in struct[1]]
     if struct[0] == "dict":
         return {f"k{i}": k for i, k in enumerate(kids)}
@@ -251,6 +259,10 @@ class Laws:
             if lv[k].size > 0:
                 # other dtype AND a value that a cast to the first dtype would destroy (x + 0.5, or 2 for a bool)
                 variants.append(("dtype_and_fraction", _mutate_leaf(tree, k, "dtype_fraction", rng), False))
+        fl = [j for j, x in enumerate(lv) if np.issubdtype(x.dtype, np.floating) and x.size > 0 and np.all(np.isfinite(x))]
+        if fl:
+            # every element of one float leaf moved to the next representable number: equal shape, no equal element
+            variants.append(("float_next_representable", _mutate_leaf(tree, fl[int(rng.integers(len(fl)))], "nextafter", rng), False))
         if _has_multi_dict(tree):
             # dicts are the same structure whatever order their keys were inserted in (one built by a constructor, the other
             # restored from a checkpoint): the leaves that are paired are the ones under the same key
@@ -351,6 +363,8 @@ def _mutate_leaf(tree, k, how, rng):
             a[idx] = ~a[idx]
         else:
             a[idx] = a[idx] + 1
+    elif how == "nextafter":
+        a = np.nextafter(a, np.asarray(np.inf, a.dtype)).astype(a.dtype)
     elif how == "shape":
         a = np.concatenate([a.reshape((1,) + a.shape), a.reshape((1,) + a.shape)], 0) if a.ndim == 0 or True else a
     elif how == "dtype_fraction":
@@ -409,6 +423,7 @@ def run_shard(shard: Dict[str, Any], rep: Report) -> None:
                 L.cross_dtype_near_misses(desc)
             if len(rep.samples) < 2:
                 rep.sample(desc)
+        rep.count("generated_leaves_with_infinity", INF_LEAVES[0])
     else:
         for name in shard["envs"]:
             L = Laws(rep, rng, where=name)
